@@ -529,6 +529,9 @@ def run_c12(ctx):
            note="DP / radial / Visvalingam (every tie-break) transcriptions satisfy subsequence, endpoints, error bound, idempotence, spacing, counts, monotonicity")
     shards = ctx.gen("simplify")
     ctx.validate("Simplify_Trace", shards)
+    # sizes: lines and rings of 600 .. 6000 vertices (relations evaluated by the harness)
+    shards = ctx.gen("simplifybig", shards=1)
+    ctx.validate("Simplify_Trace", shards, stage="long-lines")
     # polygons / multipolygons: every ring goes through the simplifier, collapsed holes / polygons are dropped (in-place
     # compaction, the filter-map of MvtLayer.tla)
     shards = ctx.gen("simppoly")
@@ -540,7 +543,7 @@ def run_c12(ctx):
 PLANS["C12"] = dict(
     run=run_c12, signature=sig_default,
     technique="TLA+ relations (subsequence, endpoints, exact rational error bound, spacing, counts, monotonicity) and transcriptions of the three simplifiers; TLC model-checks the transcriptions against the relations and validates traces of the real simplifier calls, with simplifier values reused across calls",
-    level_text="TLC checks for every path of <=5 (quick) / <=6 (thorough) vertices on a 3x3 grid and 5 thresholds that the Douglas-Peucker transcription (farthest vertex, strict >) keeps endpoints, stays within the threshold (exact rational point-segment distances), is idempotent and monotone, that the radial scan keeps the spacing, and that Visvalingam under every tie-break respects minimum counts, keep-N and monotonicity. Every path of <=4 (5) vertices on a 4x4 grid and seeded paths to 40 vertices (repeated, collinear, coincident-endpoint vertices), as lines and rings, through the typed and generic entry points, with dyadic thresholds, larger-threshold and second-application runs on REUSED simplifier values, are recorded; TLC evaluates the relations on each event. Polygons and multipolygons of 1..5 parts (parts that collapse, stay, or change, in every order) through Polygon / MultiPolygon / Simplify of all three simplifiers: the result must be the filter-map of the per-part results (spec MvtLayer), i.e. every ring is simplified and exactly the collapsed holes / polygons disappear. Damped zig-zags, spirals and growing zig-zags of 20..49 vertices (the recursion nests linearly); polygon parts that come out with exactly three vertices. Radial also runs with planar.DistanceSquared against the squared threshold on the figure eight times smaller (squared distances below one).",
+    level_text="TLC checks for every path of <=5 (quick) / <=6 (thorough) vertices on a 3x3 grid and 5 thresholds that the Douglas-Peucker transcription (farthest vertex, strict >) keeps endpoints, stays within the threshold (exact rational point-segment distances), is idempotent and monotone, that the radial scan keeps the spacing, and that Visvalingam under every tie-break respects minimum counts, keep-N and monotonicity. Every path of <=4 (5) vertices on a 4x4 grid and seeded paths to 40 vertices (repeated, collinear, coincident-endpoint vertices), as lines and rings, through the typed and generic entry points, with dyadic thresholds, larger-threshold and second-application runs on REUSED simplifier values, are recorded; TLC evaluates the relations on each event. Polygons and multipolygons of 1..5 parts (parts that collapse, stay, or change, in every order) through Polygon / MultiPolygon / Simplify of all three simplifiers: the result must be the filter-map of the per-part results (spec MvtLayer), i.e. every ring is simplified and exactly the collapsed holes / polygons disappear. Damped zig-zags, spirals and growing zig-zags of 20..49 vertices (the recursion nests linearly); polygon parts that come out with exactly three vertices. Radial also runs with planar.DistanceSquared against the squared threshold on the figure eight times smaller (squared distances below one). Sizes: lines and rings of 600..6000 integer vertices (long straight runs included) go through all three simplifiers; subsequence with the ends kept, the error bound (every input vertex within the threshold of some piece of the result, 1e-9), spacing, minimum counts, keep-N, idempotence and nesting under a larger threshold are evaluated by the harness and the verdict checked by TLC.",
     level_note="Thresholds are dyadic (a/4) so that t^2 and 2*area thresholds are exact rationals; a vertex at distance exactly t may be kept or dropped. Geodesic distance functions for Radial are not exercised. Trusted: TLC, Json module, integer projection of coordinates.",
     rule="one event = one simplifier call (input, parameters, output, second application, larger threshold); non-trivial = at least one vertex dropped; distinct = distinct event text",
     assumptions=["integer coordinates of magnitude <= 30 so that all squared distances and cross products fit 32 bits"],
